@@ -87,6 +87,8 @@ pub fn err_kind(e: &ReadError) -> usize {
 }
 
 thread_local! {
+    /// debugging aid: per-helper call counts of the current thread (off by default)
+    pub static HELPER_TRACE: RefCell<Option<std::collections::BTreeMap<&'static str, u64>>> = const { RefCell::new(None) };
     static SEEN_TYPES: RefCell<HashSet<u64>> = RefCell::new(HashSet::new());
     static SEEN_HELPERS: RefCell<HashSet<u64>> = RefCell::new(HashSet::new());
 }
@@ -111,6 +113,9 @@ pub struct Obs {
     pub panics: Vec<(String, PanicInfo)>,
     /// occurrences per panic signature
     pub panic_counts: std::collections::BTreeMap<String, u32>,
+    /// ordinal of the guarded section that panicked + signature, in order
+    pub panic_sites: Vec<(u64, String)>,
+    pub section_seq: u64,
     pub budget: u64,
 }
 
@@ -128,6 +133,8 @@ impl Obs {
             new_helpers: vec![],
             panics: vec![],
             panic_counts: Default::default(),
+            panic_sites: vec![],
+            section_seq: 0,
             budget,
         }
     }
@@ -154,6 +161,11 @@ impl Obs {
     #[inline]
     pub fn helper(&mut self, name: &'static str) {
         self.helper_calls += 1;
+        HELPER_TRACE.with(|t| {
+            if let Some(m) = t.borrow_mut().as_mut() {
+                *m.entry(name).or_insert(0) += 1;
+            }
+        });
         let h = fnv64(name.as_bytes());
         let new = SEEN_HELPERS.with(|s| {
             let mut s = s.borrow_mut();
@@ -200,13 +212,23 @@ impl Obs {
     /// Run a section under its own panic guard so that one panic does not hide
     /// later sections and is attributed to the section.
     pub fn guarded(&mut self, what: &str, f: impl FnOnce(&mut Obs)) {
+        // the observation of a section that panics is "panicked at S": partial
+        // progress (which depends on where inside the section the panic hit) is
+        // rolled back so that it does not enter the digest or the counters
+        self.section_seq += 1;
+        let seq = self.section_seq;
+        let saved = (self.d, self.fields, self.nodes, self.helper_calls, self.tables_ok, self.errs);
         match vf_core::guard(|| f(self)) {
             Ok(()) => {}
             Err(p) => {
+                (self.d, self.fields, self.nodes, self.helper_calls, self.tables_ok, self.errs) = saved;
                 self.d.str("PANIC");
                 self.d.str(&p.signature());
                 let sig = p.signature();
                 *self.panic_counts.entry(sig.clone()).or_insert(0) += 1;
+                if self.panic_sites.len() < 4096 {
+                    self.panic_sites.push((seq, sig.clone()));
+                }
                 let dup = self.panics.iter().any(|(w, q)| w == what && q.signature() == sig);
                 if !dup && self.panics.len() < 32 {
                     self.panics.push((what.to_string(), p));
